@@ -8,7 +8,7 @@ from vlib import core, gen, gosrc
 PROP = "C06"
 META = {
     "technique": "Coq proof: refinement of an executable model of linkedBuffer/bufferSlice/allocator/done/moveTo to a byte queue via a global inductive invariant (store well-formedness, ownership of every slot as multiset accounting, send buffer, header chains, receive buffer) preserved by every operation; tie: differential execution of the real linkedBuffer pair (real moveToWithoutLock/readMore, heap-backed bufferManager, small classes) against the model on generated op sequences, plus an independent byte-queue oracle",
-    "level_text": "Theorem C06 (= C06_full): for every size-class configuration with positive capacities, every slot count, every op sequence over the whole op set (all writer ops, Flush, all reader ops of any size incl. 0 and more than available, both releases, recycle, the reused reset slice, allocate/overwrite/free by other owners) the model never panics and agrees op by op with the byte queue (bytes, n, Len of both buffers, Peek consumes nothing, oversized reads block), independent of transport (single slice, multi-slice, heap fallback, chains with empty slices, fallback after shm). C06_no_panic, C06_step (the invariant), C06_move_to (transfer lemma), C06_write_bytes / C06_reserve (writer refinement in every allocator state), size-0 regression theorems. Stream.ReleaseReadAndReuse (both directions of a stream pair, Model dstep): C06_reuse_keeps_unread - the call never changes the unread bytes of the releasing stream nor creates unflushed bytes, for every well-formed state, for the swap decision translated from stream.go on every run (Gen/SwitchC06.v); the op-by-op refinement of the two-direction model (C06_duplex_full) is stated, not proved: it is covered by the correspondence harness (real Stream.ReleaseReadAndReuse, echo through the adopted slice).",
+    "level_text": "Theorem C06 (= C06_full): for every size-class configuration with positive capacities, every slot count, every op sequence over the whole op set (all writer ops, Flush, all reader ops of any size incl. 0 and more than available, both releases, recycle, the reused reset slice, allocate/overwrite/free by other owners) the model never panics and agrees op by op with the byte queue (bytes, n, Len of both buffers, Peek consumes nothing, oversized reads block), independent of transport (single slice, multi-slice, heap fallback, chains with empty slices, fallback after shm). C06_no_panic, C06_step (the invariant), C06_move_to (transfer lemma), C06_write_bytes / C06_reserve (writer refinement in every allocator state), size-0 regression theorems. Both directions of a stream pair (Model dstep, swap decision of Stream.ReleaseReadAndReuse translated from stream.go on every run into Gen/SwitchC06.v): theorem C06_duplex - for every configuration and every op sequence of both directions incl. ReleaseReadAndReuse by either stream (swap, adopted slice, echo) the model agrees op by op with two byte queues and never panics, under the explicit guard that ReleaseReadAndReuse is not called with written-but-unflushed bytes (C06_duplex_unguarded_refuted: without the guard the swap moves them into the read buffer - the documented misuse); C06_reuse_keeps_unread; C06_duplex_invariant_op/_reuse.",
     "level_note": "Trusted: coqc kernel; the hand-written model is tied to /repo by sampled differential runs (sizes relative to slice capacities, exhaustion, fallback, empty slices in chains); negative sizes and uint32 truncation of sizes are outside the model; sequential (one writer, one reader per direction; the lock-free allocator is C01/C02); Stream.Flush is mirrored without queue/socket (level (i)).",
 }
 
